@@ -84,12 +84,19 @@ type State struct {
 	Marks   map[string]Val  // harness-visible ghost values
 	Choices []int           // zzvp.Choose decisions taken on this path
 	Asserts []pendingAssert // assertions awaiting discharge at the end of the path (one batched query)
+	Spy     []spyRec        // calls of harness-declared contract stubs on this path (arguments and results)
+}
+
+type spyRec struct {
+	Name string
+	Args []Val
+	Res  Tuple
 }
 
 type pendingAssert struct{ Label, Cond string }
 
 func (s *State) clone() *State {
-	n := &State{Heap: make(map[int]Val, len(s.Heap)), NextObj: s.NextObj, PC: append([]string{}, s.PC...), Reached: map[string]bool{}, Steps: s.Steps, ID: s.ID, Choices: append([]int{}, s.Choices...), Asserts: append([]pendingAssert{}, s.Asserts...)}
+	n := &State{Heap: make(map[int]Val, len(s.Heap)), NextObj: s.NextObj, PC: append([]string{}, s.PC...), Reached: map[string]bool{}, Steps: s.Steps, ID: s.ID, Choices: append([]int{}, s.Choices...), Asserts: append([]pendingAssert{}, s.Asserts...), Spy: append([]spyRec{}, s.Spy...)}
 	for k, v := range s.Reached {
 		n.Reached[k] = v
 	}
